@@ -161,6 +161,12 @@ def judge(sc, run, sim, res):
       missing = [u for u in added if u not in took]
       res.violate('posted-not-dispatched', {}, '%s: queued (minus displaced) %s but taken/dispatched %s; missing %s' % (name, added, took, missing))
       return
+  # run-to-completion steps of one object never overlap: they all run on its one thread
+  for oi in range(len(run.objs)):
+    threads = sorted(set(d[4] for d in run.dispatch if d[1] == oi))
+    if len(threads) > 1:
+      res.violate('steps-on-several-threads', {}, '%s ran steps on %s' % (run.names[oi], threads))
+      return
   groups = ac.consumers_by_queue(sim)
   for qid, names in groups.items():
     if len(names) > 1:
